@@ -229,3 +229,96 @@ Print Assumptions C17_other_entry_points_frame.
 Print Assumptions C17_world_rejected_unchanged.
 Print Assumptions C17_world_deposit_burns.
 Print Assumptions C17_world_direct_call_rejected.
+
+
+(* =====================================================================================
+   Migrations and governance.  `tm_migrate is_admin stored st` is the minter's `migrate`
+   entry point called on a contract whose cw2 info is `stored` (the accept/refuse logic is
+   the one property C20 is stated over, model/Migrate.v); `tm_sudo_params` is what a sudo
+   UpdateParams on the factory means for one existing minter (it re-reads the factory's
+   max_per_address_limit, airdrop price and shuffle fee on every call).  The theorems
+   above are extended to histories (`hstep`) that interleave entry points, migrations
+   (accepted or refused, by anyone, from any stored info) and governance.
+   ===================================================================================== *)
+From Coq Require Import String.
+From LP Require Import TokenMergeMigrate TokenMergeMigrateProofs.
+
+(* migrate never touches the token-merge state: ledger, mint counts, supply, start time,
+   limit, requirement list -- whatever the stored cw2 info; only the wasm admin gets through *)
+Theorem C17_migrate_preserves_state : forall is_admin stored st st' c',
+  tm_migrate is_admin stored st = Ok (st', c') -> st' = st.
+Proof. exact tm_migrate_frame. Qed.
+
+Theorem C17_migrate_needs_admin : forall stored st, tm_migrate false stored st = Err.
+Proof. exact tm_migrate_not_admin. Qed.
+
+(* an accepted migrate found the minter's own name and leaves either the stored info (same
+   version) or the code's own name and version *)
+Theorem C17_migrate_cw2 : forall is_admin stored st st' c',
+  tm_migrate is_admin stored st = Ok (st', c') ->
+  is_admin = true /\ fst stored = Migrate.own_name Migrate.TokenMergeMinter /\
+  (c' = stored \/
+   c' = (Migrate.own_name Migrate.TokenMergeMinter, Migrate.code_version_string Migrate.TokenMergeMinter)).
+Proof. exact tm_migrate_cw2. Qed.
+
+(* governance moves the three factory-side numbers only; in particular an existing minter's own
+   per-address limit, ledger, mint counts, start time and supply are not touched *)
+Theorem C17_sudo_params_frame : forall mx ap sf st,
+  let st' := tm_sudo_params mx ap sf st in
+  tm_ledger st' = tm_ledger st /\ tm_counts st' = tm_counts st /\ tm_req st' = tm_req st /\
+  tm_limit st' = tm_limit st /\ tm_start st' = tm_start st /\ tm_admin st' = tm_admin st /\
+  tm_num_tokens st' = tm_num_tokens st /\ tm_mintable st' = tm_mintable st /\ tm_avail st' = tm_avail st /\
+  tm_max_limit st' = opt_or mx (tm_max_limit st) /\ tm_airdrop_price st' = opt_or ap (tm_airdrop_price st) /\
+  tm_shuffle_fee st' = opt_or sf (tm_shuffle_fee st).
+Proof. exact tm_sudo_frame. Qed.
+
+(* the accounting invariant over all histories interleaving entry points, migrations and governance *)
+Theorem C17_accounting_invariant_with_migrations : forall minter st0 (h : list hstep),
+  tm_ledger st0 = [] ->
+  let st := fst (gxrun minter h (st0, ghost0)) in
+  let g := snd (gxrun minter h (st0, ghost0)) in
+  tm_req st = tm_req st0 /\
+  (forall r c a, req_amount c (tm_req st0) = Some a ->
+     ledger st r c <= a /\ dmints g r * a + ledger st r c = cred g r c) /\
+  (forall r c, req_amount c (tm_req st0) = None -> ledger st r c = 0 /\ cred g r c = 0).
+Proof. exact accounting_invariant_x. Qed.
+
+(* world level: a migrate step, accepted or refused, leaves the whole world as it was *)
+Theorem C17_world_migrate_unchanged : forall now is_admin stored w w' ok c',
+  wxstep now (XMigrate is_admin stored) w = (w', ok, c') ->
+  w' = w /\ (ok = true -> is_admin = true) /\ (ok = false -> c' = Some stored).
+Proof. exact wxstep_migrate. Qed.
+
+Theorem C17_world_sudo_frame : forall now mx ap sf w w' ok c',
+  wxstep now (XSudo mx ap sf) w = (w', ok, c') ->
+  ok = true /\ w_src w' = w_src w /\ w_tgt w' = w_tgt w /\ w_minter w' = w_minter w /\
+  w_m w' = tm_sudo_params mx ap sf (w_m w).
+Proof. exact wxstep_sudo. Qed.
+
+(* non-vacuity: a history with a partial deposit, an accepted migrate from 0.0.1, a refused one,
+   governance lowering the factory maximum, and the completing deposit *)
+Example C17_ex_history_with_migrations :
+  let st0 := mkTm 5 1000 2 3 [(21, 2)] 50 0 500 3 [1; 2; 3] [] [] in
+  let h := [HOp 1001 (OReceive 21 11 None 101 0);
+            HMigrate true ("crates.io:sg-minter"%string, "0.0.1"%string);
+            HMigrate false ("crates.io:sg-minter"%string, "0.0.1"%string);
+            HSudo (Some 1) None None;
+            HOp 1002 (OReceive 21 11 None 102 2)] in
+  let s := gxrun 7 h (st0, ghost0) in
+  (tm_ledger (fst s), tm_counts (fst s), tm_mintable (fst s), tm_limit (fst s), tm_max_limit (fst s),
+   dmints (snd s) 11, cred (snd s) 11 21) = ([], [(11, 1)], 2, 2, 1, 1, 2).
+Proof. vm_compute. reflexivity. Qed.
+
+Example C17_ex_migrate_accepts_older_refuses_newer :
+  is_ok (tm_migrate true ("crates.io:sg-minter"%string, "0.0.1"%string) (mkTm 5 1000 2 3 [(21, 2)] 50 0 500 3 [1; 2; 3] [] [])) = true /\
+  is_ok (tm_migrate true ("crates.io:sg-minter"%string, "99.0.0"%string) (mkTm 5 1000 2 3 [(21, 2)] 50 0 500 3 [1; 2; 3] [] [])) = false /\
+  is_ok (tm_migrate true ("crates.io:vending-minter"%string, "0.0.1"%string) (mkTm 5 1000 2 3 [(21, 2)] 50 0 500 3 [1; 2; 3] [] [])) = false.
+Proof. vm_compute. repeat split; reflexivity. Qed.
+
+Print Assumptions C17_migrate_preserves_state.
+Print Assumptions C17_migrate_needs_admin.
+Print Assumptions C17_migrate_cw2.
+Print Assumptions C17_sudo_params_frame.
+Print Assumptions C17_accounting_invariant_with_migrations.
+Print Assumptions C17_world_migrate_unchanged.
+Print Assumptions C17_world_sudo_frame.
